@@ -84,6 +84,13 @@ def replay_dir(cexdir):
     ob = cex["obligation"]
     race = ob.startswith("race[")
     res, msg, out = run_replay(cexdir, race=race)
+    if race:
+        # once both goroutines are released the detector normally reports at the second access; if the process
+        # dies first for another reason (e.g. a panic further down the same schedule) the run is repeated
+        for _ in range(3):
+            if "WARNING: DATA RACE" in out or not ("panic:" in out or "fatal error:" in out):
+                break
+            res, msg, out = run_replay(cexdir, race=race)
     if res is None and not out:
         return False, msg
     crashed = ("panic:" in out or "fatal error:" in out) and "REPLAY-RESULT" not in out
